@@ -23,7 +23,7 @@ RULE = ("two modes.  direct: seeded clause sets over <=10 variables with EQ/LT/G
         "non-trivial = >=2 solutions on either side; distinct = (request kinds, n, #clauses) or design skeleton")
 ASSUMPTIONS = ["sim/gurobi.py reads OPB as linear +-1 pseudo-Boolean constraints terminated by ';' (no header line is written by the library)",
                "GT requests use k < n and EQ/LT use k <= n: the SAT encoding's own behaviour beyond that is property C10 (not applicable here)"]
-BUDGET = {"quick": 45, "thorough": 900}
+BUDGET = {"quick": 300, "thorough": 900}
 RUNS = {"quick": 3000, "thorough": 150000}
 
 
